@@ -214,10 +214,6 @@ def rank2 (n : Nat) (x : Nat → Rat) (i : Nat) : Nat :=
 def spearmanSq (n : Nat) (f g : Nat → Rat) : Rat :=
   pearsonSq n (fun i => (rank2 n f i : Rat)) (fun i => (rank2 n g i : Rat))
 
-/-- ordinal rank `argsort(argsort(x))` for a stable sort (0-based) -/
-def rankOrd (n : Nat) (x : Nat → Rat) (i : Nat) : Nat :=
-  countTo n (fun j => decide (x j < x i)) + countTo i (fun j => decide (x j = x i))
-
 /-! ## `_quantile_bin_array`, `bincount_hist` -/
 
 def insertAsc (a : Rat) : List Rat → List Rat
